@@ -25,12 +25,17 @@ RULE = ("point clouds of 1..60 points (uniform, clustered so that interior block
         "weights, never a whole block); reductions numpy mean/median/sum/min/average (weights only with average); "
         "spacing (scalar or pair, adjust spacing/region) or shape; region given (sometimes larger or smaller than the "
         "cloud) or inferred; center_coordinates, drop_coords on/off; 0..2 extra coordinates. Labels and block centres "
-        "come from verde.block_split on the same arguments. A case is non-trivial when the call returns, at least one "
+        "come from verde.block_split on the same arguments. About 30 % of the random cases (and fixed edge cases) hold integer values in int64 / int32 / float32 arrays - data, weights, extra and sometimes the horizontal coordinates - "
+        "with reductions whose block results are not whole numbers (float32: compared within relative 2^-20); 2-D inputs are given in "
+        "mixed memory layouts (C, Fortran, transposed view of a transposed copy, strided view of a larger buffer, negative "
+        "strides), a different one per array; a quarter of the cases are observed on an instance that has already filtered "
+        "other data, and the result must be bitwise that of a fresh instance. A case is non-trivial when the call returns, at least one "
         "block has >= 2 members and there are >= 2 non-empty blocks; distinct = distinct full input.")
 ASSUMPTIONS = [
     "pandas DataFrame.groupby(key).aggregate(f) calls f once per distinct key on the rows carrying it (in row order) and returns the results sorted by key; numpy.unique returns the sorted distinct labels - modelled by the executable specifications groupby / ukeys and re-validated against the implementation on every run",
     "block labels and block centres are taken from verde.block_split (observed on the same arguments); block geometry is outside this property",
     "floats are read as the rationals they denote; reductions are computed exactly in Q and compared with the floating-point results within relative 2^-40 of the largest magnitude in the column (block centres: exactly)",
+    "results computed from float32 arrays are compared within relative 2^-20 (single precision), everything else within 2^-40; integer arrays hold values below 2^24 so that they are exact in every dtype used",
     "weights are non-negative with a positive sum in every block (numpy.average raises ZeroDivisionError otherwise); weights are given only with numpy.average (the other numpy reductions take no weights keyword)",
 ]
 TRUSTED = ["python harness harness/c09.py (generators, exact float -> dyadic transfer, verdict parsing)"]
@@ -81,24 +86,83 @@ def _distinct_values(rnd, count, q, lo, hi):
     return [p / q for p in pool]
 
 
-def _fmt(a):
-    return "np.array(%r)" % (np.asarray(a).tolist(),)
+LAYOUTS = ["C", "F", "TT", "strided", "neg"]
 
 
-def observe(vd, red, coords, data, weights, kw, tuple1=False):
-    """run the real code; returns ('ok', coords_list, data_list) | ('ValueError',) | ('other', name)"""
+def apply_layout(a, tag):
+    """the same logical 2-D array in another memory layout (no-op for 1-D arrays / tag C)"""
+    a = np.asarray(a)
+    if a.ndim != 2 or tag == "C":
+        return a
+    if tag == "F":
+        return np.asfortranarray(a)
+    if tag == "TT":                       # transposed view of a transposed copy
+        return a.T.copy().T
+    if tag == "strided":                  # every 2nd row / 3rd column of a larger buffer
+        big = np.full((a.shape[0] * 2, a.shape[1] * 3), 99, dtype=a.dtype)
+        big[::2, ::3] = a
+        return big[::2, ::3]
+    if tag == "neg":                      # negative strides
+        return a[::-1, ::-1].copy()[::-1, ::-1]
+    raise ValueError(tag)
+
+
+def _fmt(a, tag="C"):
+    a = np.asarray(a)
+    base = "np.array(%r, dtype=%r)" % (a.tolist(), str(a.dtype))
+    if a.ndim != 2 or tag == "C":
+        return base
+    return {"F": "np.asfortranarray(%s)", "TT": "%s.T.copy().T",
+            "strided": "np.repeat(np.repeat(%s, 2, 0), 3, 1)[::2, ::3]",
+            "neg": "%s[::-1, ::-1].copy()[::-1, ::-1]"}[tag] % base
+
+
+def first_call_args(coords, data, weights, weighted_ok):
+    """different arguments for a first call on an instance that is then reused: points in reverse order,
+    other values, a single component"""
+    rev = lambda a: np.ascontiguousarray(np.asarray(a).ravel()[::-1].reshape(np.asarray(a).shape))
+    c1 = [rev(c) for c in coords]
+    d1 = rev(np.asarray(data[0], dtype=float)) * -2.0 + 1.0
+    w1 = None
+    if weights is not None and weighted_ok:
+        w1 = rev(np.asarray(weights[-1], dtype=float)) + 0.25
+    return tuple(c1), d1, w1
+
+
+def _same(a, b):
+    """bitwise-equal results (tuples of arrays / arrays)"""
+    if isinstance(a, tuple) != isinstance(b, tuple):
+        return False
+    if isinstance(a, tuple):
+        return len(a) == len(b) and all(_same(x, y) for x, y in zip(a, b))
+    a, b = np.asarray(a), np.asarray(b)
+    return a.shape == b.shape and a.dtype == b.dtype and a.tobytes() == b.tobytes()
+
+
+def observe(vd, red, coords, data, weights, kw, tuple1=False, twice=False):
+    """run the real code; returns ('ok', coords_list, data_list) | ('ValueError',) | ('other', name).
+    twice: the instance has already filtered other data; its result must be that of a fresh instance"""
+    stale = False
     try:
         br = vd.BlockReduce(getattr(np, REDS[red][3:]), **kw)
         d = tuple(data) if len(data) != 1 or tuple1 else data[0]
         w = None if weights is None else (tuple(weights) if len(weights) != 1 else weights[0])
+        if twice:
+            try:
+                br.filter(*first_call_args(coords, data, weights, True))
+            except Exception:
+                pass
         oc, od = br.filter(tuple(coords), d, w)
+        if twice:
+            fresh = vd.BlockReduce(getattr(np, REDS[red][3:]), **kw).filter(tuple(coords), d, w)
+            stale = not _same((tuple(oc), od), (tuple(fresh[0]), fresh[1]))
     except ValueError:
         return ("ValueError",)
     except Exception as exc:
         return ("other", type(exc).__name__ + ": " + str(exc)[:100])
     od = list(od) if isinstance(od, tuple) else [od]
     oc = list(oc)
-    extra = []
+    extra = [np.zeros(1)] if stale else []
     for a in od + oc:
         if np.asarray(a).ndim != 1:
             extra = [np.zeros(1)]
@@ -118,7 +182,9 @@ def make_case(vd, red, coords, data, weights, kw, kind, expect_valid=True):
         # malformed coordinates: no labels to give; the model rejects on the shapes alone
         labels = list(range(np.asarray(coords[0]).size))
         centres = (np.zeros(1), np.zeros(1))
-    obs = observe(vd, red, coords, data, weights, kwc, bool(kw.get("_tuple1")))
+    obs = observe(vd, red, coords, data, weights, kwc, bool(kw.get("_tuple1")), bool(kw.get("_twice")))
+    tags = list(kw.get("_layouts") or []) + ["C"] * 16
+    tc, td, tw = tags[:len(coords)], tags[len(coords):len(coords) + len(data)], tags[len(coords) + len(data):]
     cw = "None" if weights is None else "(Some %s)" % _cdll(weights)
     if obs[0] == "ok":
         cobs = "(Some (%s, %s))" % (_cdll(obs[1]), _cdll(obs[2]))
@@ -126,8 +192,8 @@ def make_case(vd, red, coords, data, weights, kw, kind, expect_valid=True):
         cobs = "None"
     else:
         cobs = "None" if expect_valid else "(Some ([], []))"
-    term = "c09_case %s %s %s %s %s (%s, %s) %s %s %s" % (
-        red, clist([cZ(v) for v in labels]), _cdll(coords), _cdll(data), cw,
+    term = "c09_case %s %s %s %s %s %s %s (%s, %s) %s %s %s" % (
+        kw.get("_epsd", "eps40"), kw.get("_epsc", "eps40"), red, clist([cZ(v) for v in labels]), _cdll(coords), _cdll(data), cw,
         _cdl(centres[0]), _cdl(centres[1]),
         cbool(kwc.get("center_coordinates", False)), cbool(kwc.get("drop_coords", True)), cobs)
     counts = {}
@@ -135,12 +201,16 @@ def make_case(vd, red, coords, data, weights, kw, kind, expect_valid=True):
         counts[v] = counts.get(v, 0) + 1
     nontrivial = obs[0] == "ok" and len(counts) >= 2 and max(counts.values()) >= 2
     repro = ("import numpy as np, verde; print(verde.BlockReduce(%s, **%r).filter((%s,), (%s,), %s))" % (
-        REDS[red], kwc, ", ".join(_fmt(c) for c in coords), ", ".join(_fmt(d) for d in data),
-        "None" if weights is None else "(%s,)" % ", ".join(_fmt(w) for w in weights)))
+        REDS[red], kwc, ", ".join(_fmt(c, t) for c, t in zip(coords, tc)), ", ".join(_fmt(d, t) for d, t in zip(data, td)),
+        "None" if weights is None else "(%s,)" % ", ".join(_fmt(w, t) for w, t in zip(weights, tw))))
+    if kw.get("_twice"):
+        repro += "  # observed on an instance that had filtered other data before (result must equal this fresh call)"
     inp = {"reduction": REDS[red], "kwargs": kwc, "coordinates": [np.asarray(c).tolist() for c in coords],
            "data": [np.asarray(d).tolist() for d in data],
            "weights": None if weights is None else [np.asarray(w).tolist() for w in weights],
-           "labels_from_block_split": labels}
+           "labels_from_block_split": labels,
+           "dtypes": [str(np.asarray(a).dtype) for a in list(coords) + list(data) + (list(weights) if weights is not None else [])],
+           "layouts": kw.get("_layouts"), "instance_reused": bool(kw.get("_twice"))}
     out = [obs[0]] + ([[a.tolist() for a in obs[1]], [a.tolist() for a in obs[2]]] if obs[0] == "ok" else list(obs[1:]))
     return Case(inp, out, term, repro, kind, nontrivial=nontrivial)
 
@@ -154,15 +224,40 @@ def _fix_weights(ws, labels):
             sums[l] = sums.get(l, 0.0) + v
         for i, l in enumerate(labels):
             if sums[l] == 0.0:
-                flat[i] = 0.5
-                sums[l] = 0.5
+                flat[i] = 1 if flat.dtype.kind in "iu" else 0.5
+                sums[l] = float(flat[i])
     return ws
+
+
+def cast_variant(rnd, n, ncomp, nextra, box, weighted, dt, int_coords, east, north):
+    """integer-valued arrays in dtype dt (int64 / int32 / float32): data, extra coordinates, weights and
+    (int_coords) the horizontal coordinates; block means / even medians / weighted averages of integers
+    are not whole numbers, so a result forced back to the input dtype shows"""
+    vals = [int(v) for v in _distinct_values(rnd, n * (ncomp + nextra), 1, -480, 480)]
+    data = [np.array(vals[c * n:(c + 1) * n]).astype(dt) for c in range(ncomp)]
+    extra = [np.array(vals[(ncomp + c) * n:(ncomp + c + 1) * n]).astype(dt) for c in range(nextra)]
+    if int_coords:
+        east = [rnd.randint(box[0], box[1]) for _ in range(n)]
+        north = [rnd.randint(box[2], box[3]) for _ in range(n)]
+        hc = [np.array(east).astype(dt), np.array(north).astype(dt)]
+    else:
+        hc = [np.array(east, dtype=float), np.array(north, dtype=float)]
+    weights = None
+    if weighted:
+        weights = []
+        for c in range(ncomp):
+            wv = [int(v) for v in _distinct_values(rnd, n, 1, 1, n + 40)]
+            if rnd.random() < 0.4:
+                for j in rnd.sample(range(n), max(1, n // 8)):
+                    wv[j] = 0
+            weights.append(np.array(wv).astype(dt))
+    return hc + extra, data, weights
 
 
 def random_config(rnd, vd, i, weighted, kind=None):
     box = (rnd.choice([0, -4, 2]), 0, rnd.choice([0, -3, 1]), 0)
     box = (box[0], box[0] + rnd.choice([6, 8, 10]), box[2], box[2] + rnd.choice([5, 8]))
-    layout = rnd.choice(["uniform", "uniform", "clustered", "clustered", "grid"])
+    layout = rnd.choice(["uniform", "uniform", "clustered", "clustered", "grid", "grid"])
     shape2d = None
     if layout == "grid":
         a, b = rnd.randint(2, 6), rnd.randint(2, 8)
@@ -177,16 +272,37 @@ def random_config(rnd, vd, i, weighted, kind=None):
     else:
         n = rnd.choice([1, 2, 3, 5, 8, 13, 21, 34, 48, 60]) if i % 6 == 0 else rnd.randint(4, 60)
         east, north = _cloud(rnd, layout, n, box)
-        if rnd.random() < 0.25:
+        if rnd.random() < 0.35:
             for a, b in [(a, b) for a in range(2, 9) for b in range(2, 9) if a * b == n][:1]:
                 shape2d = (a, b)
     ncomp = rnd.choice([1, 1, 2, 3])
     nextra = rnd.choice([0, 0, 1, 2])
-    vals = _distinct_values(rnd, n * (ncomp + nextra), 8, -60, 60)
-    data = [np.array(vals[c * n:(c + 1) * n]) for c in range(ncomp)]
-    extra = [np.array(vals[(ncomp + c) * n:(ncomp + c + 1) * n]) for c in range(nextra)]
-    coords = [np.array(east, dtype=float), np.array(north, dtype=float)] + extra
     kw = {}
+    dt = None
+    if rnd.random() < 0.3:
+        dt = rnd.choice([np.int64, np.int32, np.float32])
+    if dt is not None:
+        int_coords = rnd.random() < 0.4 and layout != "grid"
+        coords, data, weights = cast_variant(rnd, n, ncomp, nextra, box, weighted, dt, int_coords, east, north)
+        if dt is np.float32:
+            kw["_epsd"] = "eps20"
+            if int_coords or nextra:
+                kw["_epsc"] = "eps20"
+    else:
+        int_coords = False
+        vals = _distinct_values(rnd, n * (ncomp + nextra), 8, -60, 60)
+        data = [np.array(vals[c * n:(c + 1) * n]) for c in range(ncomp)]
+        extra = [np.array(vals[(ncomp + c) * n:(ncomp + c + 1) * n]) for c in range(nextra)]
+        coords = [np.array(east, dtype=float), np.array(north, dtype=float)] + extra
+        weights = None
+        if weighted:
+            weights = []
+            for c in range(ncomp):
+                wv = _distinct_values(rnd, n, 16, 0.0625, 8)
+                if rnd.random() < 0.4:
+                    for j in rnd.sample(range(n), max(1, n // 8)):
+                        wv[j] = 0.0
+                weights.append(np.array(wv))
     # blocks: spacing or shape
     if rnd.random() < 0.55:
         sp = rnd.choice([1.5, 2, 2.5, 3, 4, (2, 3), (3, 1.5), (2.5, 2.5), 20])
@@ -197,7 +313,8 @@ def random_config(rnd, vd, i, weighted, kind=None):
         kw["shape"] = (rnd.randint(1, 6), rnd.randint(1, 6))
     # region given or inferred
     r = rnd.random()
-    degenerate = n == 1 or len(set(east)) == 1 or len(set(north)) == 1
+    e0, n0 = np.ravel(coords[0]), np.ravel(coords[1])
+    degenerate = n == 1 or len(set(e0.tolist())) == 1 or len(set(n0.tolist())) == 1
     if r < 0.5 or degenerate:
         if rnd.random() < 0.3:
             kw["region"] = (box[0] - 2, box[1] + 3, box[2] - 1, box[3] + 2)   # larger: empty border blocks
@@ -209,16 +326,10 @@ def random_config(rnd, vd, i, weighted, kind=None):
     kw["drop_coords"] = rnd.random() < 0.5
     if weighted:
         red = "RAverage"
-        weights = []
-        for c in range(ncomp):
-            wv = _distinct_values(rnd, n, 16, 0.0625, 8)
-            if rnd.random() < 0.4:
-                for j in rnd.sample(range(n), max(1, n // 8)):
-                    wv[j] = 0.0
-            weights.append(np.array(wv))
     else:
         red = rnd.choice(["RMean", "RMedian", "RSum", "RMin", "RAverage", "RMedian", "RSum", "RMin"])
-        weights = None
+        if dt is not None and rnd.random() < 0.6:
+            red = rnd.choice(["RMean", "RMedian", "RAverage"])
     if shape2d is not None:
         coords = [c.reshape(shape2d) for c in coords]
         data = [d.reshape(shape2d) for d in data]
@@ -230,8 +341,19 @@ def random_config(rnd, vd, i, weighted, kind=None):
             _fix_weights(weights, [int(v) for v in np.ravel(labels)])
         except Exception:
             pass
+    if shape2d is not None and rnd.random() < 0.7:
+        # the same logical arrays in different memory layouts, a different one per array
+        nw = 0 if weights is None else len(weights)
+        tags = [rnd.choice(LAYOUTS) for _ in range(len(coords) + len(data) + nw)]
+        kw["_layouts"] = tags
+        coords = [apply_layout(c, t) for c, t in zip(coords, tags)]
+        data = [apply_layout(d, t) for d, t in zip(data, tags[len(coords):])]
+        if weights is not None:
+            weights = [apply_layout(w, t) for w, t in zip(weights, tags[len(coords) + len(data):])]
     if ncomp == 1 and rnd.random() < 0.3:
         kw["_tuple1"] = True
+    if rnd.random() < 0.25:
+        kw["_twice"] = True
     return red, coords, data, weights, kw
 
 
@@ -262,6 +384,32 @@ def edge_cases(rnd, vd):
             kw = dict(center_coordinates=center, drop_coords=drop, spacing=2, region=(0, 10, 0, 8))
             out.append(("RAverage", [e2, n2, d2 * 3], [d2, -d2 + 0.5, d2 * d2], [w0, w1, w2], kw))
             out.append(("RAverage", [e2, n2], [d2], [w1], dict(kw, _tuple1=True)))
+    # integer-valued data / weights / coordinates in integer and single-precision dtypes: blocks of 2, 3, 1, 2, 1, 4
+    # members whose means, even medians and weighted averages are not whole numbers; 2-D inputs in mixed layouts
+    ei = A([0, 0, 1, 1, 1, 2, 0, 0, 1, 2, 2, 2, 2]); ni = A([0, 0, 0, 0, 0, 0, 1, 1, 1, 1, 1, 1, 1])
+    di = A([3, 8, 1, 2, 12, 5, 7, 10, -4, 1, 2, 4, 10]); dj = A([-7, 2, 30, 11, 9, 6, 1, 0, 8, 21, 3, 5, 14])
+    wi = A([1, 2, 3, 1, 2, 1, 5, 2, 1, 1, 0, 3, 2]); wj = A([2, 1, 1, 4, 0, 3, 1, 1, 2, 7, 1, 1, 2])
+    ui = A([10, 30, 20, 60, 50, 40, 70, 90, 80, 100, 120, 110, 131])
+    for dt in (np.int64, np.int32, np.float32):
+        eps = {"_epsd": "eps20", "_epsc": "eps20"} if dt is np.float32 else {}
+        for red in ["RMean", "RMedian", "RAverage", "RSum", "RMin"]:
+            for center in (False, True):
+                kw = dict(eps, center_coordinates=center, drop_coords=False, spacing=1, region=(-0.5, 2.5, -0.5, 1.5))
+                out.append((red, [ei + 0.0, ni + 0.0, ui.astype(dt)], [di.astype(dt), dj.astype(dt)], None, dict(kw)))
+                out.append((red, [ei.astype(dt), ni.astype(dt), ui.astype(dt)], [di.astype(dt)], None, dict(kw, _twice=True)))
+        for center in (False, True):
+            kw = dict(eps, center_coordinates=center, drop_coords=False, spacing=1, region=(-0.5, 2.5, -0.5, 1.5))
+            out.append(("RAverage", [ei + 0.0, ni + 0.0], [di.astype(dt), dj.astype(dt)], [wi.astype(dt), wj.astype(dt)], dict(kw)))
+            out.append(("RAverage", [ei.astype(dt), ni.astype(dt), ui.astype(dt)], [dj.astype(dt)], [wi.astype(dt)], dict(kw, _twice=True)))
+        # 2-D (3 x 4) with a different layout per array
+        e2 = np.arange(12).reshape(3, 4) % 4; n2 = np.arange(12).reshape(3, 4) // 4
+        d2 = A([[5, 2, 9, 4], [7, 12, 1, 0], [3, 8, 6, 11]])
+        for k, red in enumerate(["RMean", "RMedian", "RAverage"]):
+            tags = [LAYOUTS[(k + j) % 5] for j in range(1, 6)]
+            kw = dict(eps, spacing=2, region=(-0.5, 3.5, -0.5, 2.5), drop_coords=False, _layouts=tags)
+            arrs = [e2 + 0.0, n2 + 0.0, (d2 * 3).astype(dt), d2.astype(dt), (d2 * d2).astype(dt)]
+            arrs = [apply_layout(a, t) for a, t in zip(arrs, tags)]
+            out.append((red, arrs[:3], arrs[3:], None, kw))
     return out
 
 
@@ -293,7 +441,14 @@ def generate(tier, seed):
     for i in range(n_rand):
         weighted = i % 3 == 0
         red, coords, data, weights, kw = random_config(rnd, vd, i, weighted)
-        kind = ("weighted" if weighted else "unweighted") + ("-center" if kw["center_coordinates"] else "")
+        kind = "weighted" if weighted else "unweighted"
+        dts = {str(np.asarray(a).dtype) for a in data}
+        if dts != {"float64"}:
+            kind += "-" + sorted(dts)[0]
+        elif kw.get("_layouts"):
+            kind += "-layouts"
+        elif kw.get("_twice"):
+            kind += "-reused"
         cases.append(make_case(vd, red, coords, data, weights, kw, kind))
     return cases
 
